@@ -516,6 +516,47 @@ func runC17(c *Ctx) {
 		}
 	}
 
+	// ---------- R17.14 presence in sharedOutputs means "at least one sharer"
+	c.Rule("R17.14", "E1", "dependency database: an entry of sharedOutputs is never left behind empty — a shortened sharer list (slices.Delete/DeleteFunc) is stored back only behind a test that it keeps an element; the exclusive claim in AddControllerOutput treats presence of the key as 'shared by sharedControllers[0]' and would index an empty list (a rejected registration that was the only sharer, then an exclusive claim on the type)", 1)
+
+	{
+		shrunk := func(in ssa.Instruction) bool {
+			mu, ok := in.(*ssa.MapUpdate)
+			if !ok || !LoadsField(mu.Map, "Database", "sharedOutputs") {
+				return false
+			}
+
+			call, ok := mu.Value.(*ssa.Call)
+			if !ok {
+				return false
+			}
+
+			name := p.CalleeName(call)
+
+			return strings.HasPrefix(name, "slices.Delete")
+		}
+		keeps := FactEdge(
+			"ne(call:builtin.len(*),const:1)", "gt(call:builtin.len(*),const:1)", "ge(call:builtin.len(*),const:2)",
+			"ne(call:builtin.len(*),const:0)", "gt(call:builtin.len(*),const:0)", "ge(call:builtin.len(*),const:1)",
+		)
+		n := 0
+
+		for _, f := range p.PkgFuncs(pkgDep) {
+			if len(Find(f, shrunk)) == 0 {
+				continue
+			}
+
+			n++
+
+			c.MustCut("R17.14", "sharedOutputs[type] = shortened list ⊣ {the list keeps an element}", f, shrunk, CutSpec{Edges: keeps}, 1)
+		}
+
+		if n == 0 {
+			// no shortened list is ever stored back (e.g. entries are always deleted and rebuilt): nothing to require
+			c.Check(true, "R17.14", pkgDep+" :: no shortened sharer list is stored back into sharedOutputs", token.NoPos, "no such store in the package", "")
+		}
+	}
+
 	// ---------- R17.13 tables are not edited while they are walked
 	c.Rule("R17.13", "E3", "dependency database / input bookkeeping: a slice is never shortened, extended or re-sliced in place (slices.Delete / DeleteFunc / Insert / append, or an update of the map entry it came from) inside a loop that ranges over that same slice — elements would be skipped or visited twice, leaving stale lookup entries behind", 2)
 
